@@ -57,6 +57,24 @@ theorem call_returns_node {tbl : List Method} {st st' : State} {recv id : Nat} {
   obtain ⟨c, _, m, _, ps, _, p, _, h⟩ := h
   exact execPath_id_lt h
 
+/-- "returns a new value": a safe call returns a brand-new node (the state grows by exactly that node), or —
+only on paths without any effect, e.g. `WithSysFSMount` given an `UnimplementedFS` — the receiver itself with all
+nodes unchanged. -/
+theorem call_returns_new_or_receiver {tbl : List Method} {st st' : State} {recv id : Nat} {name : String} {a : Args}
+    (hs : allSafe tbl = true) (hw : WF st) (h : call tbl st recv name a = some (st', id)) :
+    (id = st.nodes.length ∧ st'.nodes.length = st.nodes.length + 1) ∨ (id = recv ∧ st'.nodes = st.nodes) := by
+  have hf := (call_frame hs hw h).1
+  unfold call at h
+  simp only [bind, Option.bind_eq_some_iff] at h
+  obtain ⟨c, _, m, _, ps, _, p, _, h⟩ := h
+  rcases execPath_result h with ⟨_, rfl, hl⟩ | ⟨_, rfl, hl⟩
+  · right
+    refine ⟨rfl, ?_⟩
+    have := hf.2
+    rw [← hl, List.take_length] at this
+    exact this
+  · left; exact ⟨rfl, hl⟩
+
 /-- **C19** for every history: `pre` is any history from the empty state (constructors and calls, i.e. any
 derivation tree: every call may take any earlier node as receiver), `post` any continuation (later
 derivations from any node, instantiations).  Every node existing after `pre` has the same observable
